@@ -5,6 +5,8 @@ import (
 	"fortio.org/log"
 	"math"
 	"os"
+	"os/exec"
+	"path/filepath"
 	"strings"
 	"time"
 
@@ -467,6 +469,7 @@ func runC14(c *core.Ctx) {
 	// auto-saving (the real repl.AutoLoad / repl.AutoSave, which only saves when it sees the state as changed):
 	// the last reload must be the state of one uninterrupted session that did all the updates
 	if ok {
+		c14Unrestricted(c, &bounds)
 		n := c14Sessions(c)
 		bounds = append(bounds, fmt.Sprintf("%d session histories: a defining session, then every sequence of 1..%d sessions each doing one of %d updates (direct and through functions: read-modify-write of a global, map key, array element, ++, del, new global, redefinition, nothing) between repl.AutoLoad and repl.AutoSave, compared with one uninterrupted session; each also at debug log level", n, map[bool]int{true: 2, false: 3}[c.Quick()], len(c14SessionOps)))
 	}
@@ -537,13 +540,25 @@ func c14Sessions(c *core.Ctx) int {
 }
 
 func c14SessionHistory(ops []string, debugLevel bool, cs core.Case) *core.Viol {
+	return c14SessionHistoryDirs(ops, debugLevel, cs, nil)
+}
+
+// c14SessionHistoryDirs: the sessions run in a scratch directory holding the given sub-directories; the uninterrupted
+// session runs in another scratch directory of the same shape (explicit saves write files in both).
+func c14SessionHistoryDirs(ops []string, debugLevel bool, cs core.Case, subdirs []string) *core.Viol {
 	dir, err := os.MkdirTemp("", "c14-sess-")
 	if err != nil {
 		return nil
 	}
 	defer os.RemoveAll(dir)
 	old, _ := os.Getwd()
-	_ = os.Chdir(dir)
+	for _, sd := range subdirs {
+		_ = os.MkdirAll(filepath.Join(dir, "one", sd), 0o755)
+		_ = os.MkdirAll(filepath.Join(dir, "many", sd), 0o755)
+	}
+	_ = os.MkdirAll(filepath.Join(dir, "one"), 0o755)
+	_ = os.MkdirAll(filepath.Join(dir, "many"), 0o755)
+	_ = os.Chdir(filepath.Join(dir, "one"))
 	defer func() { _ = os.Chdir(old) }()
 	if debugLevel {
 		// the log level is configuration like any other: what is saved must not depend on it
@@ -559,6 +574,7 @@ func c14SessionHistory(ops []string, debugLevel bool, cs core.Case) *core.Viol {
 		implEval(one, op, 100000)
 	}
 	want := globalsDump(one.s)
+	_ = os.Chdir(filepath.Join(dir, "many"))
 	// the same in separate sessions
 	run := func(src string) *core.Viol {
 		x := newSess(sessCfg{})
@@ -591,7 +607,71 @@ func c14SessionHistory(ops []string, debugLevel bool, cs core.Case) *core.Viol {
 	return nil
 }
 
+// ---- sessions with unrestricted IO (the command line's default): explicit saves to other files and directories between
+// the updates. Run in a child process (the IO configuration is per process).
+
+var c14UnrestrictedOps = []string{"save(\"bk/.gr\")", "save(\"./.gr\")", "save(\"other.gr\")", "save()", "load(\"bk/.gr\")", "cnt = cnt + 1", "inc()", "m.k = 7", "cnt"}
+
+func c14Child(args []string) int {
+	n := 0
+	var rec func(h []int)
+	rec = func(h []int) {
+		if len(h) > 0 {
+			n++
+			var ops []string
+			for _, i := range h {
+				ops = append(ops, c14UnrestrictedOps[i])
+			}
+			if v := c14SessionHistoryDirs(ops, false, core.Case{Kind: "sessions-unrestricted", Data: strings.Join(ops, " ;; ")}, []string{"bk"}); v != nil {
+				fmt.Printf("C14CHILD-VIOL %s | %s | %s\n", strings.Join(ops, " ;; "), v.Class, strings.ReplaceAll(trunc(v.Detail, 1200), "\n", "\\n"))
+			}
+		}
+		if len(h) == 3 {
+			return
+		}
+		for i := range c14UnrestrictedOps {
+			rec(append(append([]int{}, h...), i))
+		}
+	}
+	rec(nil)
+	fmt.Printf("C14CHILD-END %d\n", n)
+	return 0
+}
+
+func c14Unrestricted(c *core.Ctx, bounds *[]string) {
+	if !c.MineNoDedup("child", "sessions-unrestricted") {
+		return
+	}
+	self, _ := os.Executable()
+	cmd := exec.Command(self, "C14-child")
+	cmd.Env = append(os.Environ(), "VERIF_IOCFG=unrestricted", "GOMAXPROCS=2")
+	out, err := cmd.CombinedOutput()
+	text := string(out)
+	cs := core.Case{Kind: "sessions-unrestricted", Data: "all"}
+	if err != nil || !strings.Contains(text, "C14CHILD-END") {
+		c.Report(&core.Viol{Class: "sessions-unrestricted:child-died", Detail: fmt.Sprintf("%v %s", err, trunc(text, 800)), Case: cs})
+		return
+	}
+	total := 0
+	for _, l := range strings.Split(text, "\n") {
+		switch {
+		case strings.HasPrefix(l, "C14CHILD-END "):
+			fmt.Sscanf(l, "C14CHILD-END %d", &total)
+		case strings.HasPrefix(l, "C14CHILD-VIOL "):
+			f := strings.SplitN(l[14:], " | ", 3)
+			if len(f) == 3 {
+				c.Report(&core.Viol{Class: f[1], Detail: "(unrestricted IO) " + f[2], Case: core.Case{Kind: "sessions-unrestricted", Data: f[0]}})
+			}
+		}
+	}
+	for i := 0; i < total; i++ {
+		c.CountNT(fmt.Sprintf("sessions-unrestricted %d", i), "reloads-equal", true)
+	}
+	*bounds = append(*bounds, fmt.Sprintf("with unrestricted IO (child process): every sequence of <=3 sessions over %d actions (explicit saves to another directory's .gr, to ./.gr, to another file, load of the backup, updates) = %d histories, compared with one uninterrupted session", len(c14UnrestrictedOps), total))
+}
+
 func init() {
+	core.RegisterChild("C14-child", c14Child)
 	core.Register(&core.Check{
 		ID:          "C14",
 		Level:       "exploration",
